@@ -293,7 +293,7 @@ def check_consistency(project, E=None, prop="C07", allow_short_slots=False):
             if not (0 <= s < len(mods)) or mods[s] is None:
                 raise PropertyViolation(prop + ".tables.dangling", "module %d in slot %d names module %r which does not exist" % (m.index, i, s))
             S = mods[s]
-            if not (0 <= k < len(S.out_links)) or S.out_links[k] != m.index or S.out_link_slots[k] != i:
+            if not (0 <= k < len(S.out_links)) or k >= len(S.out_link_slots) or S.out_links[k] != m.index or S.out_link_slots[k] != i:
                 raise PropertyViolation(
                     prop + ".tables.mutual",
                     "module %d in slot %d says source %d slot %d, but source has out_links=%r out_link_slots=%r" % (m.index, i, s, k, S.out_links, S.out_link_slots),
@@ -308,7 +308,7 @@ def check_consistency(project, E=None, prop="C07", allow_short_slots=False):
             if not (0 <= d < len(mods)) or mods[d] is None:
                 raise PropertyViolation(prop + ".tables.dangling", "module %d out slot %d names module %r which does not exist" % (m.index, i, d))
             D = mods[d]
-            if not (0 <= k < len(D.in_links)) or D.in_links[k] != m.index or D.in_link_slots[k] != i:
+            if not (0 <= k < len(D.in_links)) or k >= len(D.in_link_slots) or D.in_links[k] != m.index or D.in_link_slots[k] != i:
                 raise PropertyViolation(
                     prop + ".tables.mutual",
                     "module %d out slot %d says destination %d slot %d, but destination has in_links=%r in_link_slots=%r" % (m.index, i, d, k, D.in_links, D.in_link_slots),
